@@ -79,6 +79,11 @@ func c11Pred(c *rt.Ctx, st *gen.Store, r *rt.Rand) *gen.Node {
 	}
 	g.ValLits = append(g.ValLits, "a", "1", "")
 	sort.Strings(g.ValLits)
+	if g.ForceKind > 0 && r.Bool() {
+		// the construct alone is the whole filter: nothing around it narrows what its region loses
+		c.Rec.Inc("key_region_construct_alone")
+		return g.Atom(1)
+	}
 	// bias towards key-pinning shapes
 	K := gen.Key
 	lit := func() *gen.Node { return gen.Str(g.KeyLits[r.Intn(len(g.KeyLits))]) }
